@@ -13,6 +13,8 @@ def args_for(unit, failure, tier='quick'):
     item = ((failure.get('where') or {}).get('origin') or {}).get('item', '')
     if unit == 'U-DERIVES':
         return [['c08-resolve'], ['c18-upcast'], ['c16-builders']] if item in ('resolve', 'extend_from') else [['c18-upcast'], ['c08-resolve'], ['c16-builders']]
+    if unit == 'U-TYPEIR':
+        return [['c08-typeir'], ['c18-upcast'], ['c08-resolve'], ['c16-builders']] if item in ('create_type_ir', 'resolve_derives_for_type') else [['c18-upcast'], ['c08-resolve'], ['c16-builders'], ['c08-typeir']]
     if unit == 'U-FLATTEN':
         return [['c08-flatten'], ['c08-reach'], ['c16-builders']] if item != 'collect_type_ids' else [['c08-reach'], ['c08-flatten']]
     if unit == 'U-REACH':
